@@ -345,7 +345,8 @@ func newConsNode(state string, t int) (c *consNode, err error) {
 	if rs.Step != want || rs.Height != wantH {
 		return nil, fmt.Errorf("fixture: state %s not reached: node at %d/%d/%v", state, rs.Height, rs.Round, rs.Step)
 	}
-	if c.Block != nil && c.Proposer == c.T {
+	// (at height 3 the node only waits in NewHeight: who proposes round 1 there does not matter)
+	if c.Block != nil && c.Proposer == c.T && state != stH3NewHeight {
 		return nil, fmt.Errorf("fixture: target %d is the proposer in %s", t, state)
 	}
 	c.Height = rs.Height
